@@ -19,6 +19,8 @@ import (
 //     block-level content, EG_ContentBlockContent). The container is transparent: what it
 //     holds are paragraphs and tables of the body, at the place of the container. Empty
 //     markers (w:bookmarkStart / w:bookmarkEnd / w:proofErr) may stand between the blocks.
+//     The same containers may stand between a table cell and its paragraphs (CT_Tc holds
+//     EG_BlockLevelElts): what they hold are paragraphs of the cell, at their place.
 //   - DOCX: any row of a table may carry w:trPr/w:tblHeader ("repeat as header row").
 //   - ODT: the rows of a table may be laid out in sections (ODF 1.2 part 1, 9.1.2 and the
 //     schema: table-rows-and-groups = (table-row-group | table-rows-no-group)+,
@@ -81,6 +83,23 @@ func drawTableStructure(r *hx.Rng, F string, t *ltable) {
 			}
 		case F == "odt" && r.Chance(1, 3):
 			t.Groups, t.Plan = 6, drawRowPlan(r, t.R)
+		}
+		if F == "docx" && r.Chance(1, 4) {
+			// one or two cells with some of their paragraphs inside a block-level container
+			var cands []*lcell
+			for a := 0; a < t.R; a++ {
+				for b := 0; b < t.C; b++ {
+					if c := t.Cells[[2]int{a, b}]; c != nil && len(c.Paras) > 0 {
+						cands = append(cands, c)
+					}
+				}
+			}
+			for n := r.Range(1, 2); n > 0 && len(cands) > 0; n-- {
+				c := cands[r.Intn(len(cands))]
+				c.Box = hx.Pick(r, boxKinds)
+				c.BoxAt = r.Intn(len(c.Paras))
+				c.BoxN = r.Range(1, len(c.Paras)-c.BoxAt)
+			}
 		}
 	}
 	for a := 0; a < t.R; a++ {
@@ -340,6 +359,19 @@ func countTableStructure(c *hx.Ctx, F string, t *ltable) {
 		}
 	}
 	for _, cell := range t.Cells {
+		if cell.Box != "" {
+			c.Count("docx-cell-block-container:" + cell.Box)
+			switch {
+			case cell.BoxN == len(cell.Paras):
+				c.Count("docx-cell-block-container-holds-every-paragraph-of-the-cell")
+			case cell.BoxAt == 0:
+				c.Count("docx-cell-block-container-before-direct-paragraphs")
+			case cell.BoxAt+cell.BoxN == len(cell.Paras):
+				c.Count("docx-cell-block-container-after-direct-paragraphs")
+			default:
+				c.Count("docx-cell-block-container-between-direct-paragraphs")
+			}
+		}
 		if cell.Nested != nil {
 			countTableStructure(c, F, cell.Nested)
 		}
